@@ -197,7 +197,7 @@ type encScenario struct {
 type encOutcome struct {
 	cmds      []string
 	problems  []string // unknown-key violations
-	known     []string // what falls under utf16-final-line-break
+	rawTail   string   // the finding utf16-final-line-break (fixed in 621cb1c) is back
 	showField string
 }
 
@@ -321,15 +321,12 @@ func runEncScenario(s encScenario) encOutcome {
 		return out
 	}
 	if !s.strip {
-		// the appended line break: correct = transcoded; known finding = the raw byte 0x0A
-		if bytes.Equal(got, e.encode(want+"\n")) {
+		// the appended line break must be written in the file's encoding (EncodeEndingLineBreak, 621cb1c)
+		want += "\n"
+		if bytes.Equal(got, append(e.encode(strings.TrimSuffix(want, "\n")), '\n')) && strings.HasPrefix(e.base, "UTF16") {
+			out.rawTail = fmt.Sprintf("%s %s file after %s+COMMIT ends with the raw byte 0a instead of a UTF-16 line break", s.format, e.name(), s.op)
 			return out
 		}
-		if bytes.Equal(got, append(e.encode(want), '\n')) && strings.HasPrefix(e.base, "UTF16") {
-			out.known = append(out.known, fmt.Sprintf("%s %s file after %s+COMMIT ends with the raw byte 0a instead of a UTF-16 line break", s.format, e.name(), s.op))
-			return out
-		}
-		got = bytes.TrimSuffix(got, []byte("\n")) // diagnose the rest below
 	}
 	text, why := e.decode(got)
 	switch {
@@ -393,7 +390,7 @@ func (c *c02Run) encodingPaths(tier string) {
 		c.meta.Distribution["e2e-encoding-path-format:"+s.format+"/"+s.op]++
 		cs := map[string]interface{}{"kind": "encoding-path", "format": s.format, "import_encoding": s.path.setting, "file_encoding": s.path.file.name(),
 			"resolves_to": s.path.resolve, "operation": s.op, "strip_ending_line_break": s.strip, "show_fields_encoding": o.showField, "commands": o.cmds}
-		if len(o.problems) == 0 && len(o.known) == 0 {
+		if len(o.problems) == 0 && o.rawTail == "" {
 			c.sig[fmt.Sprintf("enc|%s|%s|%s|%s|%v", s.path.setting, s.path.file.name(), s.format, s.op, s.strip)] = true
 		}
 		for _, p := range o.problems {
@@ -403,8 +400,8 @@ func (c *c02Run) encodingPaths(tier string) {
 			}
 			c.meta.Direct = append(c.meta.Direct, DirectViolation{Key: key, What: p, Case: cs})
 		}
-		for _, p := range o.known {
-			c.meta.Direct = append(c.meta.Direct, DirectViolation{Key: kUtf16Final, What: p, Case: cs})
+		if o.rawTail != "" {
+			c.meta.Direct = append(c.meta.Direct, DirectViolation{Key: kUtf16Final, What: o.rawTail, Case: cs})
 		}
 	}
 }
